@@ -904,6 +904,7 @@ TENSOR_METHODS = {
     "numpy": lambda I, t: NumpyArray(t.val),
     "__len__": lambda I, t: t.val.shape[0].size(),
     "view_as": t_view_as,
+    "expand_as": lambda I, t, other: Tensor(tshape.expand(I, t.val, [d.size() for d in lift(other).shape])),
     "narrow": t_narrow,
     "neg": lambda I, t: Tensor(tlib.ew1(t.val, lambda x: -zreal(x), "real")),
     "tanh": lambda I, t: Tensor(tlib.ew1(t.val, lambda x: tlib.tanh_term(zreal(x)), "real")),
